@@ -140,7 +140,7 @@ CHECKS["C14"] = dict(
     engine="tlc-naming+injected-test+llgo",
     technique="TLA+ Naming (entities, same-entity relation) enumerates references built to collide; NamingJudge evaluates Injective / Agree / MergeSafe / Linkname / Reach on observations from cl.funcName, varName, abi.TypeName (injected test, five package layouts) and from llgo-built multi-package programs + llvm-nm; NamingImpl (layer B) model-checked",
     text="714 references (1,292 in thorough) reuse every name on every axis (package, T vs *T, local scopes, type arguments incl. local/alias/composite); each link name is collected from every package that compiles the entity; programs in which every body prints its identity must reach the predicted entity; no strong symbol is defined twice, weak duplicates have equal size.",
-    note="MergeSafe end to end is an equal-size proxy; goroutine thunks end-to-end only; C-callback wrappers not covered; one known finding (dotted last path element)",
+    note="zero-size package variables are covered by one fixed program; MergeSafe end to end is an equal-size proxy; goroutine thunks end-to-end only; C-callback wrappers not covered; one known finding (dotted last path element)",
     design="5 C14")
 
 CHECKS["C06"] = dict(
